@@ -206,6 +206,7 @@ func CheckC01(run *Run) {
 	run.Proof = CheckProofs("C01")
 	run.Prepare()
 	reqs := RuntimeCatalogue()
+	reqs = append(reqs, RootPathRequest()) // subtree routes ("/" method paths): precedence and redirects
 	rng := rand.New(rand.NewSource(run.Seed + 101))
 	nRandom, perRPC := 4, 2
 	if run.Tier == "thorough" {
@@ -354,9 +355,6 @@ func k3(n int) int { return n % 3 }
 // z3TagsC01 classifies oracle failures on cases the model does not cover (float kinds on the URL).
 func z3TagsC01(c *callCase) []string {
 	var tags []string
-	if c.ct == 2 {
-		tags = append(tags, "octet-stream-json-body")
-	}
 	if strings.Contains(c.svc.BasePath, "{") {
 		tags = append(tags, "base-path-variable-unbound")
 	}
